@@ -13,7 +13,7 @@ duration, total propagator), G in {1,2,3,5,16}, frequency grids with w = 0, w ta
 eigenphases of the Liouville propagator +- delta, pulses with identity total propagator / degenerate
 spectra; tolerance 1e-6 relative to the largest entry of the from-scratch result.
 
-Partial: the accuracy of LAPACK's solve for ill-conditioned 1 - T that pass the determinant test is
+Partial: the accuracy of LAPACK's solve on the systems accepted by the condition-number test (cond < 1e8) is
 sampled here, not proved.
 """
 import numpy as np
@@ -23,8 +23,8 @@ from .. import gen
 from ..common import carr_lit, rarr_lit, rvec_lit, cvec_lit, dylit, lst
 
 ID = 'C04'
-TRUSTED = ['numpy.linalg.det / isclose (branch selection) and numpy.linalg.solve are oracles: the flags are taken as they '
-           'are, the solve result is validated per case by the residual of (1 - T) S = 1 - T^G in interval arithmetic',
+TRUSTED = ['numpy.linalg.cond (branch selection: cond(1 - T) < 1e8) and numpy.linalg.solve are oracles: the flags are taken as '
+           'they are, the solve result is validated per case by the residual of (1 - T) S = 1 - T^G in interval arithmetic',
            'numpy.linalg.eigh as in C01/C02 (validated residuals)',
            'accuracy of solve near singular frequencies is SAMPLED (delta in {0,1e-12,1e-9,1e-6,1e-3} around every '
            'singular point) against division-free enclosures of the explicit sum; not proved',
@@ -114,21 +114,21 @@ def frequency_grid(r, p, nsing):
 
 
 def window_frequency(r, p, G):
-    """a frequency next to a singular point where |det(1 - T)| just passes the isclose test of the implementation
-    (so the solve branch is taken) although 1 - T is very ill-conditioned; among the eigenphases the one where
-    calculate_control_matrix_periodic deviates most from the explicit sum.  None if there is none."""
+    """a frequency next to a singular point where cond(1 - T) is just below the threshold 1e8 of the
+    implementation (so the solve branch is taken on the worst-conditioned system it accepts); among the
+    eigenphases the one where calculate_control_matrix_periodic deviates most from the explicit sum."""
     import numpy.linalg as nla
     tau = p.tau
     L = np.array(p.total_propagator_liouville)
     n = L.shape[0]
     th = np.angle(np.linalg.eigvals(L))
-    th = sorted(set(np.round(th[np.abs(th) > 1e-6], 10)))
+    th = sorted(set(np.round(th, 10)))
     best = (-1.0, None)
     for theta in th:
-        for delta in 10.0 ** np.arange(-14, -6, 0.1):
+        for delta in 10.0 ** np.arange(-10, -4, 0.05):
             w = (-theta + delta) / tau
             ph = util.cexp(np.array([w * tau]))
-            if not np.isclose(nla.det(np.eye(n) - ph[0] * L), 0):
+            if nla.cond(np.eye(n) - ph[0] * L) < 1e8:
                 break
         else:
             continue
@@ -173,7 +173,7 @@ def periodic_oracles(phases, L, G):
     eye = np.eye(L.shape[0])
     T = np.multiply.outer(phases, L)
     M = eye - T
-    inv = ~np.isclose(nla.det(M), 0)
+    inv = nla.cond(M) < 1e8
     S = np.zeros((len(phases),) + L.shape, dtype=complex)
     if inv.any():
         S[inv] = nla.solve(M[inv], eye - nla.matrix_power(T[inv], G))
@@ -217,13 +217,9 @@ def predicates(p, G, omega, window=()):
         for o in np.nonzero(err_o > REL)[0]:
             M = np.eye(L0.shape[0]) - ph0[o] * L0
             cond = np.linalg.cond(M)
-            inv_o = not np.isclose(np.linalg.det(M), 0)
-            if o in window and inv_o and cond > 1e9:
-                bad.append((obsname, 'c04-illconditioned-solve',
-                            'rel. error %.3g at omega = %r (G = %d, d = %d): |det(1 - T)| = %.3g passes the isclose test, '
-                            'cond(1 - T) = %.3g' % (err_o[o], omega[o], G, p.d, abs(np.linalg.det(M)), cond)))
-            else:
-                bad.append((obsname, sig, 'rel. error %.3g at omega[%d] = %r (G = %d)' % (err_o[o], o, omega[o], G)))
+            inv_o = bool(cond < 1e8)
+            bad.append((obsname, sig, 'rel. error %.3g at omega[%d] = %r (G = %d, d = %d, cond(1 - T) = %.3g, solve branch: %s)'
+                        % (err_o[o], o, omega[o], G, p.d, cond, inv_o)))
     eB_o = np.abs(B - Bs).max(axis=(0, 1)) / sB
     eB = float(eB_o.max())
     attribute(eB_o, 'control matrix vs from scratch', 'c04-vs-scratch')
@@ -381,8 +377,7 @@ def run(ctx):
             key = '%s/d%d/G%d/%s' % (spec['cls'], p.d, G, ft)
             classes[key] = classes.get(key, 0) + 1
         if obs is not None:
-            if spec['cls'] != 'window':
-                worst = max(worst, obs['worst'])
+            worst = max(worst, obs['worst'])
             cases.append((p, G, omega, obs, inp, spec['cls'] == 'window'))
         if len(samples) < 6:
             samples.append(dict(cls=spec['cls'], d=int(p.d), G=G, omega=[float(x) for x in omega], ftags=spec['ftags'],
@@ -419,24 +414,17 @@ def run(ctx):
         agree += x[0]
         undec += x[1]
         if x[2] > 0 or x[1] > 0:
-            if which == 'enc':
-                failures.append(dict(kind='corr', observable='periodic control matrix vs interval enclosure of the explicit sum / atomic rule',
-                                     signature='c04-illconditioned-solve',
-                                     detail='%d entries farther than %g (relative) from the division-free enclosure at a frequency where '
-                                            'the solve branch is taken on an ill-conditioned system, %d undecided' % (x[2], REL, x[1]),
-                                     input=cases[i][4]))
-            else:
-                failures.append(dict(kind='corr', observable='periodic control matrix / total propagator / tiling vs model and enclosures',
-                                     signature='c04-corr', detail='%d entries outside the model enclosure, %d undecided' % (x[2], x[1]),
-                                     input=cases[i][4]))
+            failures.append(dict(kind='corr', observable='periodic control matrix / total propagator / tiling vs model and enclosures (%s)' % which,
+                                 signature='c04-corr', detail='%d entries outside the model enclosure, %d undecided' % (x[2], x[1]),
+                                 input=cases[i][4]))
     return dict(evaluations=n + nwin, distinct_nontrivial=len(classes),
                 rule='pulse classes {generic, identity total propagator, degenerate, pulse+inverse, zero Hamiltonian, two-qubit '
                      'window} x d x G in {1,2,3,5,16} x frequency classes {w=0, w tau=2 pi k, eigenphase +- delta, generic, '
-                     'window: |det| just above the isclose threshold}; a case is non-trivial if the from-scratch control matrix '
+                     'window: cond(1 - T) just below the threshold 1e8}; a case is non-trivial if the from-scratch control matrix '
                      'is not identically zero; distinct = distinct tag tuples',
                 samples=samples, failures=failures, classes=classes,
                 corr=dict(entries_agree=agree, entries_undecided=undec, frequencies_solve_branch=stats['n_inv'],
-                          frequencies_explicit_branch=stats['n_sing'], worst_rel_error_vs_scratch_outside_window=worst))
+                          frequencies_explicit_branch=stats['n_sing'], worst_rel_error_vs_scratch=worst))
 
 
 def replay(ctx, rep):
@@ -455,7 +443,6 @@ def search(ctx, broken):
     r = ctx.rng(97)
     for i in range(300):
         p, G, omega, spec, bad, obs = one_case(r, i, True, window_case=(i % 4 == 3))
-        bad = [b for b in bad if b[1] != 'c04-illconditioned-solve']
         if bad:
             o, sig, det = bad[0]
             return [dict(kind='prop', observable=o, signature=sig, detail=det, input=dict(spec=spec), broken_obligations=broken)]
